@@ -1262,10 +1262,30 @@ var _ uuid.UUID
 //@ spec wfDatasetRecord(d *pb.Dataset) bool = len(d.Id) == 16 && d.Dimension >= 1 && d.PartitionCount >= 1 && d.ReplicationFactor >= 1 && 0 <= d.Space && d.Space <= 2 && len(d.Partitions) == d.PartitionCount && forall i int :: 0 <= i && i < len(d.Partitions) ==> d.Partitions[i] != nil && len(d.Partitions[i].Id) == 16
 
 //@ func (*storage.DatasetManager).Create
-//@ props C12
+//@ props C12 C16 C14
+//@ safety C12
 //@ ghost proposedRecords int = 0
+// C16 / C14: the placement that is proposed is the one computed by this call, for the requested shape, from the membership as it
+// is read by this call, and it is handed to raft by this call itself, once, with nothing in between that waits (a placement
+// computed and then proposed after a wait could name nodes that have left in the meantime): every partition record carries the
+// placement list of its own index
+//@ ghost placed int = 0
+//@ ghost proposed int = 0
+//@ at call Allocator).getPartitionsNodeIds
+//@ requires [C16 placement-for-the-requested-shape] $arg1 == dataset.PartitionCount && $arg2 == dataset.ReplicationFactor && placed == 0
+//@ set placed = 1
+//@ end
+//@ at call Group.Propose
+//@ requires [C16 C14 proposes-the-placement-it-just-computed] placed == 1 && proposed == 0
+//@ set proposed = proposed + 1
+//@ end
+//@ at call time.Sleep
+//@ requires [C16 no-wait-between-placement-and-proposal] placed == 0 || proposed == 1
+//@ end
+//@ ensures [C16 C14 acknowledged-creation-was-proposed-here] isnil(ret1) ==> placed == 1 && proposed == 1
 //@ at call proto.Marshal
 //@ requires [C12 wellformed-proposal] istype($arg0, *pb.Dataset) ==> wfDatasetRecord(dataset)
+//@ requires [C16 C14 every-record-carries-its-placement] istype($arg0, *pb.Dataset) ==> $arg0.pay == dataset && forall j int :: 0 <= j && j < dataset.PartitionCount ==> dataset.Partitions[j].NodeIds == partitionsNodeIds[j]
 //@ set proposedRecords = proposedRecords + ite(istype($arg0, *pb.Dataset), 1, 0)
 //@ end
 //@ at recv local:notifC
@@ -1277,6 +1297,7 @@ var _ uuid.UUID
 //@ modifies *
 //@ loop 1
 //@ invariant [partitions] 0 <= i && i <= dataset.PartitionCount && len(dataset.Partitions) == dataset.PartitionCount && fresh(dataset.Partitions) && len(partitionsNodeIds) == dataset.PartitionCount && forall j int :: 0 <= j && j < i ==> dataset.Partitions[j] != nil && len(dataset.Partitions[j].Id) == 16 && fresh(dataset.Partitions[j])
+//@ invariant [C16 record-carries-its-placement] placed == 1 && proposed == 0 && forall j int :: 0 <= j && j < i ==> allocated(dataset.Partitions[j]) && dataset.Partitions[j].NodeIds == partitionsNodeIds[j]
 //@ invariant [config] len(dataset.Id) == 16 && dataset.Dimension >= 1 && dataset.PartitionCount >= 1 && dataset.ReplicationFactor >= 1 && 0 <= dataset.Space && dataset.Space <= 2 && wfCatalogue(this)
 
 //@ func (*storage.DatasetManager).Delete
